@@ -529,6 +529,14 @@ class Engine:
         the vector is later run natively and the native observations must be identical."""
         if self.obs_budget <= 0 or not self.path_obs:
             return
+        # values that depend on an uninterpreted function cannot be compared with the native run
+        for c in self.solver.assertions():
+            if has_uf(c):
+                return
+        self.path_obs = [(t, k, v) for (t, k, v) in self.path_obs
+                         if not (has_uf(v) if k == 'u' else any(has_uf(b) for b in v))]
+        if not self.path_obs:
+            return
         if self.check() != z3.sat:
             return
         m = self.solver.model()
@@ -1375,6 +1383,24 @@ class Engine:
 
 
 _MISSING = object()
+
+
+def has_uf(e):
+    if not is_sym(e):
+        return False
+    seen = set()
+    stack = [e]
+    while stack:
+        x = stack.pop()
+        i = x.get_id()
+        if i in seen:
+            continue
+        seen.add(i)
+        if z3.is_app(x):
+            if x.decl().kind() == z3.Z3_OP_UNINTERPRETED and x.num_args() > 0:
+                return True
+            stack.extend(x.children())
+    return False
 
 
 def _zero_like(v):
